@@ -5,6 +5,7 @@ import (
 	"go/ast"
 	"go/constant"
 	"go/token"
+	"go/types"
 	"sort"
 	"strings"
 
@@ -433,4 +434,123 @@ func ruleT5(c *Ctx) {
 		c.viol(key, c.P.Pos(pb.Pos()), "parseBinopExpr does not parse its operands one level tighter (prec+1 / opprec+1): binary operators of equal precedence no longer associate to the left")
 	}
 	c.trivial("associativity anchors", "-", "parseTest, parseBinopExpr, parseTestPrec resolved")
+}
+
+// ---------- T6 ----------
+
+func init() {
+	register("T6", "token values are assigned afresh: the scanner reuses one tokenValue for every token, so on every path on which a scanning function returns INT it has stored both val.int and val.bigInt (the parser prefers bigInt when it is non-nil), FLOAT: val.float, STRING/BYTES: val.string - otherwise a literal silently takes the value of an earlier token", 3, ruleT6)
+	claim("C14", "T6")
+	claim("C10", "T6")
+}
+
+func ruleT6(c *Ctx) {
+	pk := c.P.Pkg("syntax")
+	if pk == nil {
+		c.anchorFail("package syntax not loaded")
+		return
+	}
+	tokens, _ := enumConsts(pk, "Token")
+	need := map[string][]string{"INT": {"int", "bigInt"}, "FLOAT": {"float"}, "STRING": {"string"}, "BYTES": {"string"}}
+	n := 0
+	for _, fn := range c.P.Funcs {
+		if fnPkgPath(fn) != modPath+"/syntax" || fn.Blocks == nil {
+			continue
+		}
+		var val *ssa.Parameter
+		for _, p := range fn.Params {
+			if qualType(p.Type()) == "syntax.tokenValue" {
+				if _, isPtr := p.Type().(*types.Pointer); isPtr {
+					val = p
+				}
+			}
+		}
+		if val == nil || fn.Signature.Results().Len() != 1 || qualType(fn.Signature.Results().At(0).Type()) != "syntax.Token" {
+			continue
+		}
+		fn := fn
+		// blocks that store a given field of *val
+		stores := map[string]map[*ssa.BasicBlock]bool{}
+		eachInstr(fn, func(in ssa.Instruction) {
+			st, ok := in.(*ssa.Store)
+			if !ok {
+				return
+			}
+			if fa, ok := st.Addr.(*ssa.FieldAddr); ok && fa.X == ssa.Value(val) {
+				_, f := ownerField(fa)
+				if stores[f] == nil {
+					stores[f] = map[*ssa.BasicBlock]bool{}
+				}
+				stores[f][st.Block()] = true
+			}
+		})
+		eachInstr(fn, func(in ssa.Instruction) {
+			ret, ok := in.(*ssa.Return)
+			if !ok || len(ret.Results) != 1 {
+				return
+			}
+			// constant token returned here (directly, or per phi edge)
+			type exit struct {
+				tok  string
+				from *ssa.BasicBlock
+			}
+			var exits []exit
+			switch r := ret.Results[0].(type) {
+			case *ssa.Const:
+				if k, ok := constInt(r); ok {
+					for name, v := range tokens {
+						if v == k {
+							exits = append(exits, exit{name, ret.Block()})
+						}
+					}
+				}
+			case *ssa.Phi:
+				for i, e := range r.Edges {
+					if k, ok := constInt(e); ok {
+						for name, v := range tokens {
+							if v == k {
+								exits = append(exits, exit{name, r.Block().Preds[i]})
+							}
+						}
+					}
+				}
+			}
+			for _, ex := range exits {
+				for _, f := range need[ex.tok] {
+					n++
+					key := fmt.Sprintf("%s: return %s sets val.%s", fnName(fn), ex.tok, f)
+					pos := c.P.Pos(ret.Pos())
+					// backward search from the exit to the entry avoiding blocks that store the field
+					seen := map[*ssa.BasicBlock]bool{}
+					var back func(b *ssa.BasicBlock) bool
+					back = func(b *ssa.BasicBlock) bool {
+						if seen[b] {
+							return false
+						}
+						seen[b] = true
+						if stores[f][b] {
+							return false
+						}
+						if len(b.Preds) == 0 {
+							return true
+						}
+						for _, p := range b.Preds {
+							if back(p) {
+								return true
+							}
+						}
+						return false
+					}
+					if back(ex.from) {
+						c.viol(key, pos, fmt.Sprintf("a path returns %s without assigning val.%s: the shared tokenValue keeps the value of an earlier token, which the parser then uses for this literal", ex.tok, f))
+					} else {
+						c.ok(key, pos, "assigned on every path to this return")
+					}
+				}
+			}
+		})
+	}
+	if n < 3 {
+		c.anchorFail("only %d token-value obligations found in the scanner", n)
+	}
 }
